@@ -54,10 +54,14 @@ class Scenario:
     completion, in this order, before the race starts; kills: {name: k} = SIGKILL before its k-th
     gated call (k from 0); priv: run as root (CAP_DAC_OVERRIDE) instead of `nobody`"""
 
-    def __init__(self, name, procs, prelude=(), kills=None, priv=False, bound=2, oracle="", max_execs=100000, after=()):
+    def __init__(self, name, procs, prelude=(), kills=None, priv=False, bound=2, oracle="", max_execs=100000, after=(), snapshot=False):
         self.name, self.procs, self.prelude, self.kills = name, procs, list(prelude), dict(kills or {})
         self.priv, self.bound, self.oracle, self.max_execs = priv, bound, oracle, max_execs
         self.after = list(after)      # [(name, n)]: commands run sequentially after the race (n more commands of name)
+        # snapshot: the prelude must be exactly [(g, all its commands)] ending in the death of g.  It is executed by a REAL
+        # process once per worker; the residue it leaves (three files, no lock, modes, content) is then restored by copy for
+        # every further execution instead of creating and killing one more process each time (process creation dominates)
+        self.snapshot = snapshot
 
     def header(self, tag):
         idx = {n: i for i, (n, _) in enumerate(self.procs)}
@@ -72,7 +76,7 @@ class Scenario:
 
     def to_json(self):
         return {"name": self.name, "procs": self.procs, "prelude": self.prelude, "kills": self.kills, "priv": self.priv,
-                "bound": self.bound, "oracle": self.oracle, "after": self.after}
+                "bound": self.bound, "oracle": self.oracle, "after": self.after, "snapshot": False}
 
     @staticmethod
     def from_json(d):
@@ -80,104 +84,190 @@ class Scenario:
                         d.get("priv", False), d.get("bound", 2), d.get("oracle", ""), after=[tuple(x) for x in d.get("after", [])])
 
 
-def run_execution(sc, chooser, bindir, workdir, tag):
-    """one fresh execution of the scenario on the real binaries; returns (case text lines, choices)"""
-    root = os.path.join(workdir, "root")
-    if os.path.exists(root):
-        shutil.rmtree(root)
-    os.makedirs(root)
-    os.chmod(root, 0o777)
-    d = os.path.join(root, "nodes")
+POOLS = []
+ABORT = [False]
+
+
+class Pool:
+    """long-lived gated psh processes of one worker: process creation is by far the most expensive
+    part of an execution, so a process is reused for the next execution (new state-file path, all
+    descriptors closed, nothing held) unless it was killed or exited"""
+
+    def __init__(self, bindir, workdir, priv):
+        self.bindir, self.workdir, self.priv = bindir, workdir, priv
+        os.makedirs(workdir, exist_ok=True)
+        os.chmod(workdir, 0o777)
+        self.root = os.path.join(workdir, "root-" + ("p" if priv else "u"))
+        if os.path.exists(self.root):
+            shutil.rmtree(self.root)
+        os.makedirs(self.root)
+        os.chmod(self.root, 0o777)
+        self.ctl = gatectl.Controller(self.root, sock_dir=workdir, timeout=60.0)
+        self.live = {}
+        self.nspawn = 0
+        self.nexec = 0
+        self.snaps = {}           # prelude key -> (directory with the residue, recorded lines)
+        POOLS.append(self)
+
+    def get(self, lname):
+        p = self.live.get(lname)
+        if p is not None and p.exited is None and p.popen.poll() is None:
+            return p
+        self.nspawn += 1
+        p = self.ctl.spawn("%s#%d" % (lname, self.nspawn), [os.path.join(self.bindir, "psh"), os.path.join(self.root, "unused")],
+                           user=None if self.priv else NOBODY)
+        self.live[lname] = p
+        return p
+
+    def close(self):
+        try:
+            self.ctl.close()
+        finally:
+            self.live = {}
+
+
+def run_execution(sc, chooser, pool, tag):
+    """one execution of the scenario on the real binaries (fresh directory, processes with nothing
+    open or held); returns (case text lines, choices)"""
+    ctl = pool.ctl
+    pool.nexec += 1
+    d = os.path.join(pool.root, "n%d" % pool.nexec)
     os.makedirs(d)
     os.chmod(d, 0o777)
     st = os.path.join(d, "st")
-    user = None if sc.priv else NOBODY
     idx = {n: i for i, (n, _) in enumerate(sc.procs)}
     lines = [sc.header(tag)]
     sent = {n: 0 for n, _ in sc.procs}
-    seen_r = {n: 0 for n, _ in sc.procs}
     ncalls = {n: 0 for n, _ in sc.procs}
     killed = set()
+    exited = set()
+    pending_exit = []
     choices = []
-    with gatectl.Controller(root, sock_dir=workdir, timeout=30.0) as ctl:
-        procs = {}
-        for n, cmds in sc.procs:
-            procs[n] = ctl.spawn(n, [os.path.join(bindir, "psh"), st], user=user)
+    if ABORT[0]:
+        raise RuntimeError("aborted")
+    procs = {}
+    snap_key = None
+    snap = None
+    if sc.snapshot:
+        snap_key = json.dumps([sc.procs[0], sc.prelude, sc.kills.get(sc.procs[0][0])])
+        snap = pool.snaps.get(snap_key)
+    skip = set()
+    if snap is not None:
+        sdir, slines = snap
+        for f in os.listdir(sdir):
+            shutil.copy2(os.path.join(sdir, f), os.path.join(d, f))
+            if not pool.priv:
+                os.chown(os.path.join(d, f), NOBODY, NOBODY)
+        lines.extend(slines)
+        skip.add(sc.procs[0][0])
+        killed.add(sc.procs[0][0])
+    for n, cmds in sc.procs:
+        if n in skip:
+            continue
+        p = pool.get(n)
+        procs[n] = p
+        p.send("path " + st)
+    names = [p.name for p in procs.values()]
+    ctl.settle(names, gatectl.r_idle)
+    seen_r = {n: len(p.results()) for n, p in procs.items()}
 
-        exited = set()
+    def flush_r():
+        for n, p in procs.items():
+            if p.exited is not None and n not in killed and n not in exited:
+                for _ in range(200):
+                    if p.stdout_eof:
+                        break
+                    ctl._pump(0.01)
+                exited.add(n)
+                pending_exit.append(n)
+        for n, p in procs.items():
+            rs = p.results()
+            while seen_r[n] < len(rs):
+                f = rs[seen_r[n]].split(" ")
+                lines.append("R %d %s %s" % (idx[n], f[1], f[2] if len(f) > 2 else "ok"))
+                seen_r[n] += 1
+        while pending_exit:
+            lines.append("K %d" % idx[pending_exit.pop(0)])     # `exit` command: the process left without dropping
 
-        def flush_r():
-            for n, p in procs.items():
-                if p.exited is not None and n not in killed and n not in exited:
-                    for _ in range(200):
-                        if p.stdout_eof:
-                            break
-                        ctl._pump(0.01)
-                    exited.add(n)
-                    pending_exit.append(n)
-            for n, p in procs.items():
-                rs = p.results()
-                while seen_r[n] < len(rs):
-                    f = rs[seen_r[n]].split(" ")
-                    lines.append("R %d %s %s" % (idx[n], f[1], f[2] if len(f) > 2 else "ok"))
-                    seen_r[n] += 1
-            while pending_exit:
-                lines.append("K %d" % idx[pending_exit.pop(0)])     # `exit` command: the process left without dropping
+    def do_step(n):
+        """one gated call of n, or its kill if this is its kill point"""
+        if sc.kills.get(n) == ncalls[n] and n not in killed:
+            ctl.kill(procs[n])
+            killed.add(n)
+            lines.append("K %d" % idx[n])
+            return
+        c, r, e = ctl.step(procs[n])
+        ncalls[n] += 1
+        lines.append("E %d %s" % (idx[n], canon(c, d)))
 
-        pending_exit = []
+    def send(n, k):
+        cmds = dict(sc.procs)[n]
+        for c in cmds[sent[n]:sent[n] + k]:
+            if n in procs and n not in killed and procs[n].exited is None:
+                procs[n].send(c)
+        sent[n] += k
 
-        def do_step(n):
-            """one gated call of n, or its kill if this is its kill point"""
-            if sc.kills.get(n) == ncalls[n] and n not in killed:
-                ctl.kill(n)
-                killed.add(n)
-                lines.append("K %d" % idx[n])
-                return
-            c, r, e = ctl.step(n)
-            ncalls[n] += 1
-            lines.append("E %d %s" % (idx[n], canon(c, d)))
+    def pending_names():
+        pend = ctl.pending()
+        return sorted(n for n, p in procs.items() if p.name in pend)
 
-        def send(n, k):
-            cmds = dict(sc.procs)[n]
-            for c in cmds[sent[n]:sent[n] + k]:
-                if n not in killed:
-                    procs[n].send(c)
-            sent[n] += k
-
-        def run_seq(n):
-            while True:
-                ctl.settle([n], gatectl.r_idle)
-                flush_r()
-                if n not in ctl.pending():
-                    return
-                do_step(n)
-
-        for n, k in sc.prelude:
-            send(n, k)
-            run_seq(n)
-        held_back = {n: k for n, k in sc.after}
-        for n, cmds in sc.procs:
-            send(n, len(cmds) - sent[n] - held_back.get(n, 0))
-        last = None
-        for _ in range(100000):
-            ctl.settle(None, gatectl.r_idle)
+    def run_seq(n):
+        while True:
+            ctl.settle([procs[n]], gatectl.r_idle)
             flush_r()
-            enabled = sorted(ctl.pending())
-            if not enabled:
-                break
-            pick = chooser(enabled, last)
-            choices.append(pick)
-            do_step(pick)
-            last = pick
-        for n, k in sc.after:
-            send(n, k)
-            run_seq(n)
-        ctl.settle(None, gatectl.r_idle)
+            if n not in pending_names():
+                return
+            do_step(n)
+
+    for n, k in sc.prelude:
+        if n in skip:
+            sent[n] += k
+            continue
+        send(n, k)
+        run_seq(n)
+    if sc.snapshot and snap is None:
         flush_r()
-        listing = []
-        for f in sorted(os.listdir(d)):
-            listing.append("%s:0%o" % (ROLE.get(f, "other:" + f), os.stat(os.path.join(d, f)).st_mode & 0o7777))
-        lines.append("F " + ",".join(sorted(listing)))
+        sdir = os.path.join(pool.workdir, "snap-%s-%d" % ("p" if pool.priv else "u", len(pool.snaps)))
+        shutil.rmtree(sdir, ignore_errors=True)
+        os.makedirs(sdir)
+        for f in os.listdir(d):
+            shutil.copy2(os.path.join(d, f), os.path.join(sdir, f))
+        pool.snaps[snap_key] = (sdir, lines[1:])
+    held_back = {n: k for n, k in sc.after}
+    for n, cmds in sc.procs:
+        if n not in skip:
+            send(n, len(cmds) - sent[n] - held_back.get(n, 0))
+    last = None
+    for _ in range(100000):
+        ctl.settle(names, gatectl.r_idle)
+        flush_r()
+        enabled = pending_names()
+        if not enabled:
+            break
+        pick = chooser(enabled, last)
+        choices.append(pick)
+        do_step(pick)
+        last = pick
+    for n, k in sc.after:
+        send(n, k)
+        run_seq(n)
+    ctl.settle(names, gatectl.r_idle)
+    flush_r()
+    listing = []
+    for f in sorted(os.listdir(d)):
+        listing.append("%s:0%o" % (ROLE.get(f, "other:" + f), os.stat(os.path.join(d, f)).st_mode & 0o7777))
+    lines.append("F " + ",".join(sorted(listing)))
+    # reset the surviving processes for the next execution: drop whatever they still hold (unrecorded)
+    for n, p in procs.items():
+        if p.exited is None and n not in killed:
+            p.send("cdrop")
+            p.send("drop")
+            for _ in range(1000):
+                ctl.settle([p], gatectl.r_idle)
+                if p.name not in ctl.pending():
+                    break
+                ctl.step(p)
+    shutil.rmtree(d, ignore_errors=True)
     return lines, choices
 
 
@@ -186,31 +276,72 @@ def run_driver(text):
     return p.returncode, p.stdout
 
 
-def explore_scenario(sc, bindir, workdir):
-    """all schedules of the race phase up to the preemption bound; returns dict with results"""
-    os.makedirs(workdir, exist_ok=True)
-    os.chmod(workdir, 0o777)
+def explore_scenario(sc, bindir, workdir, sched=None, shared=None):
+    """all schedules of the race phase up to the preemption bound (or the one scripted schedule);
+    returns dict with results"""
     blocks = []
     schedules = []
     t0 = time.time()
+    state = shared if shared is not None else {"pool": None}
 
     def one(chooser):
-        lines, choices = run_execution(sc, chooser, bindir, workdir, "%s#%d" % (sc.name, len(blocks)))
+        if state["pool"] is not None and state["pool"].priv != sc.priv:
+            state["pool"].close()
+            state["pool"] = None
+        if state["pool"] is None:
+            state["pool"] = Pool(bindir, workdir, sc.priv)
+        try:
+            lines, choices = run_execution(sc, chooser, state["pool"], "%s#%d" % (sc.name, len(blocks)))
+        except Exception:
+            state["pool"].close()       # unknown state: never reuse these processes
+            state["pool"] = None
+            raise
         return lines
 
     err = None
     try:
-        for lines, choices in gatectl.explore(one, sc.bound, sc.max_execs):
-            blocks.append(lines)
-            schedules.append(choices)
+        if sched is not None:
+            log = []
+
+            def ch(enabled, last, _c=gatectl.scripted(sched)):
+                c = _c(enabled, last)
+                log.append(c)
+                return c
+            blocks.append(one(ch))
+            schedules.append(log)
+        else:
+            for lines, choices in gatectl.explore(one, sc.bound, sc.max_execs):
+                blocks.append(lines)
+                schedules.append(choices)
     except Exception as ex:      # a broken execution must not hide the others
         import traceback
         err = "%r\n%s" % (ex, traceback.format_exc()[-1500:])
+    finally:
+        spawned = state["pool"].nspawn if state["pool"] is not None else 0
+        if shared is None and state["pool"] is not None:
+            state["pool"].close()
     text = "\n".join("\n".join(b) for b in blocks) + "\n"
     rc, out = run_driver(text) if blocks else (0, "SUMMARY cases=0 ops=0 mismatches_model=0 mismatches_spec=0 distinct_nontrivial=0\n")
-    shutil.rmtree(workdir, ignore_errors=True)
+    if shared is None:
+        shutil.rmtree(workdir, ignore_errors=True)
     return {"scenario": sc, "blocks": blocks, "schedules": schedules, "driver_rc": rc, "driver_out": out, "error": err,
-            "wall": time.time() - t0}
+            "wall": time.time() - t0, "spawned": spawned}
+
+
+def run_group(group, bindir, workdir):
+    """scenarios of one group share a pool of processes (same uid)"""
+    shared = {"pool": None}
+    out = []
+    try:
+        for sc, sched in group:
+            if ABORT[0]:
+                break
+            out.append(explore_scenario(sc, bindir, workdir, sched, shared))
+    finally:
+        if shared["pool"] is not None:
+            shared["pool"].close()
+        shutil.rmtree(workdir, ignore_errors=True)
+    return out
 
 
 def scenarios(thorough):
@@ -223,18 +354,18 @@ def scenarios(thorough):
         S.append(Scenario("mon-vs-drop-" + u, [("g", ["create", "drop"]), ("m", ["state"])], prelude=[("g", 1)], priv=priv, bound=b))
         # a cleaner racing the orderly drop / the creation of a live process: must never win
         S.append(Scenario("clean-vs-drop-" + u, [("g", ["create", "drop"]), ("c", ["clean", "cdrop"])], prelude=[("g", 1)], priv=priv, bound=2))
-        S.append(Scenario("clean-vs-create-" + u, [("g", ["create"]), ("c", ["clean", "cdrop"])], priv=priv, bound=1))
+        S.append(Scenario("clean-vs-create-" + u, [("g", ["create"]), ("c", ["clean", "cdrop"])], priv=priv, bound=2 if thorough else 1))
         # 2..4 cleaners racing for a dead process and holding what they get: exactly one wins
         for n in (2, 3, 4):
             S.append(Scenario("race%d-hold-%s" % (n, u), [("g", ["create", "exit"])] + [("c%d" % i, ["clean"]) for i in range(n)],
-                              prelude=[("g", 2)], priv=priv, bound=2 if n < 4 else 1, oracle="onewinner",
-                              max_execs=100000 if thorough else (400 if n == 2 else 250)))
+                              prelude=[("g", 2)], priv=priv, bound=(2 if n == 2 else 1) + (1 if thorough else 0), oracle="onewinner", snapshot=True,
+                              max_execs=5000 if thorough else 300))
         # two cleaners, the winner cleans up and drops while the other is still trying
         S.append(Scenario("race2-drop-" + u, [("g", ["create", "exit"]), ("c0", ["clean", "cdrop"]), ("c1", ["clean", "cdrop"])],
-                          prelude=[("g", 2)], priv=priv, bound=2, max_execs=100000 if thorough else 500))
+                          prelude=[("g", 2)], priv=priv, bound=2, snapshot=True, max_execs=20000 if thorough else 400))
         # winner abandons (node cleanup failure path): the other may re-acquire
         S.append(Scenario("race2-abandon-" + u, [("g", ["create", "exit"]), ("c0", ["clean", "cabandon"]), ("c1", ["clean", "cdrop"])],
-                          prelude=[("g", 2)], priv=priv, bound=1))
+                          prelude=[("g", 2)], priv=priv, bound=2 if thorough else 1, snapshot=True))
     return S
 
 
@@ -242,16 +373,16 @@ def kill_sweeps(priv):
     """kill the guard / the winning cleaner before each of its gated calls; afterwards a fresh process
     runs state, clean, cdrop, state one after the other"""
     u = "root" if priv else "user"
-    S = []
+    G, K = [], []
     for k in range(0, 21):
-        S.append(Scenario("kill-guard@%d-%s" % (k, u), [("g", ["create", "drop"]), ("x", ["state", "clean", "cdrop", "state"])],
+        G.append(Scenario("kill-guard@%d-%s" % (k, u), [("g", ["create", "drop"]), ("x", ["state", "clean", "cdrop", "state"])],
                           prelude=[("g", 2)], kills={"g": k}, priv=priv, bound=0, oracle="collectable", after=[("x", 4)]))
-    ncl = 24 if not priv else 26
+    ncl = 25 if not priv else 27
     for k in range(0, ncl):
-        S.append(Scenario("kill-cleaner@%d-%s" % (k, u),
+        K.append(Scenario("kill-cleaner@%d-%s" % (k, u),
                           [("g", ["create", "exit"]), ("c", ["clean", "cdrop"]), ("x", ["state", "clean", "cdrop", "state"])],
-                          prelude=[("g", 2), ("c", 2)], kills={"c": k}, priv=priv, bound=0, oracle="collectable", after=[("x", 4)]))
-    return S
+                          prelude=[("g", 2)], kills={"c": k}, priv=priv, bound=0, oracle="collectable", after=[("x", 4)], snapshot=True))
+    return G, K
 
 
 def witnesses():
@@ -266,10 +397,14 @@ def witnesses():
     # N4: a process owning the cleaner calls state() itself: releases its own owner lock
     W.append((Scenario("N4-own-state-releases-cleaner-lock", [("g", ["create", "exit"]), ("p1", ["clean", "state"]), ("p2", ["clean"])],
                        prelude=[("g", 2), ("p1", 2)], priv=False, bound=0), []))
-    # N1: second winner on the unlinked owner_lock after the first winner finished its cleanup
-    n1 = ["c0"] * 14 + ["c1"] * 6 + ["c0"] * 2 + ["c1"] * 7 + ["c0"] * 5 + ["c1"] * 2
-    W.append((Scenario("N1-second-winner", [("g", ["create", "exit"]), ("c0", ["clean", "cdrop"]), ("c1", ["clean", "cdrop"])],
-                       prelude=[("g", 2)], priv=False, bound=0), n1))
+    # N1: second winner on the unlinked owner_lock after the first winner finished its cleanup: the schedule is
+    # found by exploring the MODEL (breadth first = shortest) and replayed on the real binaries
+    rc, out = vlib.sh([DRIVER, "explore", "priv=0", "nlc=%d" % NLC, "progs=create,exit|clean,cdrop|clean,cdrop", "kills=-,-,-", "find=two-oks"], timeout=300)
+    calls = [l for l in out.split("\n") if l.startswith("CALLS ")]
+    if calls:
+        n1 = [{"1": "c0", "2": "c1"}[t] for t in calls[0][6:].split(",") if t != "0"]
+        W.append((Scenario("N1-second-winner", [("g", ["create", "exit"]), ("c0", ["clean", "cdrop"]), ("c1", ["clean", "cdrop"])],
+                           prelude=[("g", 2)], priv=False, bound=0), n1))
     return W
 
 
@@ -339,35 +474,19 @@ def run(ctx):
 
 
 def run_tie(ctx, tdir, proof_ok):
-    S = scenarios(ctx.thorough())
+    groups = [[(sc, None)] for sc in scenarios(ctx.thorough())]
     for priv in (False, True):
-        S += kill_sweeps(priv)
-    jobs = [(sc, None) for sc in S] + [(sc, sched) for sc, sched in witnesses()]
-    results = []
+        G, K = kill_sweeps(priv)
+        groups += [[(sc, None) for sc in G[:11]], [(sc, None) for sc in G[11:]], [(sc, None) for sc in K[:13]], [(sc, None) for sc in K[13:]]]
+    groups.append(witnesses())
+    groups.sort(key=lambda g: -sum(s.max_execs if s.bound else 1 for s, _ in g))    # long ones first
 
-    def work(i_job):
-        i, (sc, sched) = i_job
-        wd = os.path.join(TMPROOT, "w%d" % i)
-        if sched is None:
-            return explore_scenario(sc, tdir, wd)
-        # scripted witness: single execution
-        os.makedirs(wd, exist_ok=True)
-        os.chmod(wd, 0o777)
-        t0 = time.time()
-        err = None
-        blocks, schedules = [], []
-        try:
-            lines, choices = run_execution(sc, gatectl.scripted(sched), tdir, wd, sc.name)
-            blocks.append(lines)
-            schedules.append(choices)
-        except Exception as ex:
-            err = repr(ex)
-        rc, out = run_driver("\n".join(blocks[0]) + "\n") if blocks else (1, "")
-        shutil.rmtree(wd, ignore_errors=True)
-        return {"scenario": sc, "blocks": blocks, "schedules": schedules, "driver_rc": rc, "driver_out": out, "error": err, "wall": time.time() - t0}
+    def work(i_group):
+        i, group = i_group
+        return run_group(group, tdir, os.path.join(TMPROOT, "w%d" % i))
 
     with cf.ThreadPoolExecutor(max_workers=max(4, vlib.NPROC)) as ex:
-        results = list(ex.map(work, list(enumerate(jobs))))
+        results = [r for rs in ex.map(work, list(enumerate(groups))) for r in rs]
 
     tot = {"cases": 0, "ops": 0, "mismatches_model": 0, "mismatches_spec": 0, "distinct_nontrivial": 0}
     opcount = {}
@@ -452,18 +571,32 @@ def do_replay(path):
     if not ok:
         print(out[-2000:])
         return
-    wd = os.path.join(TMPROOT, "replay")
-    os.makedirs(wd, exist_ok=True)
+    os.makedirs(TMPROOT, exist_ok=True)
     os.chmod(TMPROOT, 0o777)
-    os.chmod(wd, 0o777)
     try:
-        lines, choices = run_execution(sc, gatectl.scripted(d.get("schedule", [])), tdir, wd, sc.name)
-        print("\n".join(lines))
-        rc, out = run_driver("\n".join(lines) + "\n")
-        print(out)
+        res = explore_scenario(sc, tdir, os.path.join(TMPROOT, "replay"), d.get("schedule", []))
+        for b in res["blocks"]:
+            print("\n".join(b))
+        print(res["driver_out"])
+        if res["error"]:
+            print(res["error"])
     finally:
         shutil.rmtree(TMPROOT, ignore_errors=True)
 
 
+def _term(signum, frame):
+    # worker threads stop at their next execution; every child is killed now; finally blocks remove the temp root
+    ABORT[0] = True
+    for p in list(POOLS):
+        try:
+            p.close()
+        except Exception:
+            pass
+    shutil.rmtree(TMPROOT, ignore_errors=True)
+    os._exit(143)
+
+
 if __name__ == "__main__":
+    import signal
+    signal.signal(signal.SIGTERM, _term)
     sys.exit(vlib.main(run, "C07"))
